@@ -74,6 +74,7 @@ type Interp struct {
 	bigVals   map[*Obj]*Term
 	bigField  map[*Obj]*Term // big.Int objects that carry a field value (Element.BigInt / SetBigInt)
 	sched     *Sched // nil: sequential model (a goroutine runs to completion where it is spawned)
+	transcripts map[*Obj]string // Fiat-Shamir transcripts: everything bound so far (the challenge is a function of it)
 	memoTerms map[string][]*Term // deterministic opaque functions (canonical encodings, SetBytes): same argument terms, same result
 	codecStore [][]Val
 	noSummary bool  // set while running a harness whose name says it validates a summary
